@@ -11,7 +11,7 @@ from props.slicing_kernels import kernels  # noqa: F401  (same traced kernels as
 ID = "C02"
 N_CASES = {"quick": 240, "thorough": 5000, "search": 2500}
 SHARD = 60
-DEFINITIONAL = ["C02_slice_empty_inputs"]  # the model evaluated on empty lists (closed by reflexivity)
+DEFINITIONAL = ["C02_slice_empty_inputs", "C02_dtypes_without_conversion"]  # the model evaluated on empty lists (closed by reflexivity)
 EXTRA_TARGETS = ["proofs/P_slicing_tie.vo"]  # imported by the generated tie lemmas only
 RULE = ("seeded random meshes as for C01 with more empty inputs (zero vertices / zero faces / everything behind), "
         "int32 face arrays, unreferenced vertices, masks, both ret_face_mapping; each case is also re-sliced, sliced "
@@ -30,7 +30,11 @@ def gen_cases(rng, n, tier):
             cases.append({"kind": "unique_bincount", "values": [rng.randint(0, hi) for _ in range(k)],
                           "int32": rng.random() < 0.3})
         else:
-            cases.append(S.gen_mesh_case(rng, tier, "struct"))
+            c = S.gen_mesh_case(rng, tier, "struct")
+            cases.append(c)
+            if c.get("vdtype", "float64") != "float64" and S.in_domain(c) and not any(i < 0 for f in c["faces"] for i in f):
+                # the same input straight into slice_faces_plane: the kernel keeps the vertex dtype on its uncut returns
+                cases.append(dict(c, kind="kernel_dtype"))
     return cases
 
 
@@ -43,6 +47,15 @@ def run_impl(c):
             return {"unique": u.tolist(), "inverse": inv.tolist()}
 
         return call_impl(go)
+    if c["kind"] == "kernel_dtype":
+        from polliwog.plane._trimesh_intersections import slice_faces_plane
+
+        def go():
+            V, Fa, ref, n, mask = S.arrays(c)
+            r = slice_faces_plane(V, Fa, n, ref, face_index=None if mask is None else mask.nonzero()[0])
+            return {"v_dtype": str(r[0].dtype), "f_dtype": str(r[1].dtype)}
+
+        return call_impl(go)
     return S.run_slice(c, extras=("behind", "reslice", "perm"))
 
 
@@ -52,6 +65,12 @@ def coq_case(c, o):
             return "CUnique [] [1%nat] []"  # never expected: make the case fail
         return "CUnique %s %s %s" % (coq_list(coq_nat(i) for i in c["values"]), coq_list(coq_nat(i) for i in o["unique"]),
                                      coq_list(coq_nat(i) for i in o["inverse"]))
+    if c["kind"] == "kernel_dtype":
+        head = S.coq_slice_case(dict(c, kind="x"), {"main": {"raise": "OtherError"}}).rsplit("(Raise", 1)[0].replace("CSlice", "CKernelDt", 1)
+        if "raise" in o:
+            return head + "(Raise %s)" % o["raise"]
+        vd = {"float64": "VF64", "float32": "VF32", "float16": "VF16"}.get(o["v_dtype"], "VInt")
+        return head + "(Ok (%s, %s))" % (vd, "true" if o["f_dtype"] == "int64" else "false")
     return S.coq_slice_case(c, o)
 
 
@@ -126,6 +145,8 @@ def oracle(c, o):
         if len(inv) != len(vals) or any(not (0 <= r < len(u)) or u[r] != v for r, v in zip(inv, vals)):
             return "unique[inverse] != values"
         return None
+    if c["kind"] == "kernel_dtype":
+        return None if "raise" not in o else "slice_faces_plane raised %s" % o["raise"]
     if not in_domain(c):
         return None
     main, full = o["main"], o["full"]
@@ -200,6 +221,6 @@ def oracle(c, o):
 
 
 def classify(c, o, failure, disagrees):
-    if c.get("kind") == "unique_bincount":
+    if c.get("kind") in ("unique_bincount", "kernel_dtype"):
         return None
     return S.negative_index_class(c, o, failure)
